@@ -390,6 +390,24 @@ def rule_O1(ctx, R):
                                   "access to member locks" % f["output"]["s"], *_floc(f)))
             else:
                 res.ok(f["path"])
+    # Poisonable must not share its inner lock either: locking `inner` directly bypasses the poison flag
+    PP = "poisonable::Poisonable"
+    for i in ctx.F.impls:
+        st = i["self_ty"]
+        if st["k"] != "adt" or st["path"] != PP:
+            continue
+        lparams = [a["name"] for a in st["args"] if a["k"] == "param"]
+        for it in i["items"]:
+            f = ctx.F.fn_by_id.get(it["id"])
+            if not f or "inputs" not in f or f.get("unsafe") or not f.get("reachable") or not f["inputs"]:
+                continue
+            t0 = f["inputs"][0]
+            if not (t0["k"] == "ref" and not t0["mut"] and t0["ty"]["k"] == "adt" and t0["ty"]["path"] == PP):
+                continue
+            out = f["output"]
+            if any(x["k"] == "ref" and not x["mut"] and x["ty"]["k"] == "param" and x["ty"]["name"] in lparams for x in ty_walk(out)):
+                res.bad(Violation("O1", f["path"], "inner-lock-shared", "Poisonable hands out %s: the inner lock can be acquired "
+                                  "directly, bypassing the poison flag" % out["s"], *_floc(f)))
     res.need(25, "methods of OwnedLockCollection")
     return res
 
